@@ -69,6 +69,7 @@ _t = {}
 
 def template(mapping):
     from DocumentTemplate import HTML
+    mapping = bool(mapping)
     t = _t.get(mapping)
     if t is None:
         body = '|'.join('<dtml-var %s-x>' % s for s in STATS)
@@ -82,10 +83,23 @@ class O:
     pass
 
 
+class Rec:
+    """a record that is subscriptable and nothing else (no .get, no
+    attributes): a mapping as far as `mapping` is concerned"""
+
+    def __init__(self, d):
+        self._d = d
+
+    def __getitem__(self, key):
+        return self._d[key]
+
+
 def build(values, mapping):
     seq = []
     for v in values:
-        if mapping:
+        if mapping == 2:
+            seq.append(Rec({} if v == 'MISSING' else {'x': v}))
+        elif mapping:
             seq.append({} if v == 'MISSING' else {'x': v})
         else:
             o = O()
@@ -423,7 +437,7 @@ def run(case):
     nt = n = 0
     for values in lists(case):
         data = [v for v in values if v is not None and v != 'MISSING']
-        for mapping in (0, 1):
+        for mapping in ((0, 1, 2) if case['n'] <= 3 else (0, 1)):
             out = render(values, mapping)
             n += 1
             judge(res, values, mapping, out)
